@@ -608,7 +608,7 @@ func ResolveNumericReferences(source []byte) []byte {
 					if nnext < limit && nc == 'x' || nc == 'X' {
 						start := nnext + 1
 						i, ok = ReadWhile(source, [2]int{start, limit}, IsHexDecimal)
-						if ok && i < limit && source[i] == ';' {
+						if ok && i < limit && i-start < 7 && source[i] == ';' {
 							v, _ := strconv.ParseUint(BytesToReadOnlyString(source[start:i]), 16, 32)
 							cob.Write(source[n:pos])
 							n = i + 1
